@@ -1,0 +1,282 @@
+//go:build verif
+
+package term
+
+import (
+	"fmt"
+	"os"
+	"syscall"
+	"time"
+
+	"git.sr.ht/~rockorager/vaxis"
+	"git.sr.ht/~rockorager/vaxis/ansi"
+)
+
+// Hooks for properties C05 / C06 (embedded terminal emulator).  Add-only,
+// guarded by the build tag "verif".  Nothing here re-implements emulator
+// logic: VerifTerm owns a Model built by New() whose PTY is the write end of a
+// pipe (no child process), Feed calls the unmodified update method for one
+// ansi.Sequence, Resize calls the unmodified Resize, Snapshot only reads.
+
+// VerifTerm is an emulator without PTY or child process.
+type VerifTerm struct {
+	vt      *Model
+	replyR  int      // read end (non-blocking) of the pipe standing in for the PTY
+	parserW *os.File // write end of the pipe the (idle) parser reads from
+}
+
+// Outcome codes of Feed / Resize.
+const (
+	VerifOK    = 0
+	VerifPanic = 1
+	VerifStall = 2 // update is blocked in postEvent on the full events channel
+	VerifHang  = 3 // update did not return and the events channel is not full
+)
+
+// VerifNewTerm builds a Model as StartWithSize does, minus the child process and
+// the PTY goroutine: resize(cols, rows), a parser (only its Finish method is
+// used by update) and a writable PTY stand-in.
+func VerifNewTerm(cols, rows int) (t *VerifTerm, outcome int, msg string) {
+	vt := New()
+	var fds [2]int
+	if err := syscall.Pipe2(fds[:], syscall.O_NONBLOCK|syscall.O_CLOEXEC); err != nil {
+		panic(err)
+	}
+	vt.pty = os.NewFile(uintptr(fds[1]), "verif-pty")
+	pr, pw, err := os.Pipe()
+	if err != nil {
+		panic(err)
+	}
+	vt.parser = ansi.NewParser(pr)
+	t = &VerifTerm{vt: vt, replyR: fds[0], parserW: pw}
+	outcome, msg = t.guard(func() { vt.resize(cols, rows) })
+	return t, outcome, msg
+}
+
+// Close releases the pipes (the idle parser goroutine then sees EOF and ends).
+func (t *VerifTerm) Close() {
+	t.parserW.Close()
+	t.vt.pty.Close()
+	syscall.Close(t.replyR)
+}
+
+func (t *VerifTerm) guard(f func()) (outcome int, msg string) {
+	defer func() {
+		if r := recover(); r != nil {
+			outcome = VerifPanic
+			msg = fmt.Sprint(r)
+		}
+	}()
+	f()
+	return VerifOK, ""
+}
+
+// Drain removes at most one raised event from the events channel, as one
+// iteration of the PTY goroutine's select would, and returns its kind ("" if
+// the channel was empty).
+func (t *VerifTerm) Drain() string {
+	select {
+	case ev := <-t.vt.events:
+		switch ev.(type) {
+		case EventBell:
+			return "bell"
+		case EventTitle:
+			return "title"
+		case EventNotify:
+			return "notify"
+		case EventAPC:
+			return "apc"
+		case EventPanic:
+			return "panic"
+		default:
+			return fmt.Sprintf("%T", ev)
+		}
+	default:
+		return ""
+	}
+}
+
+// EventsLen is the number of raised events not yet consumed.
+func (t *VerifTerm) EventsLen() int { return len(t.vt.events) }
+
+// Feed runs the PTY goroutine's update path for one sequence.  A panic is
+// recovered (the real goroutine would close the terminal).  A stall is observed,
+// not predicted: update runs in its own goroutine; if it has not returned
+// after a grace period and the events channel is full, one event is drained, and
+// if update then returns the outcome is VerifStall.
+func (t *VerifTerm) Feed(seq ansi.Sequence) (outcome int, msg string) {
+	type res struct {
+		outcome int
+		msg     string
+	}
+	done := make(chan res, 1)
+	go func() {
+		o, m := t.guard(func() { t.vt.update(seq) })
+		done <- res{o, m}
+	}()
+	start := time.Now()
+	wait := 200 * time.Microsecond
+	for {
+		select {
+		case r := <-done:
+			return r.outcome, r.msg
+		case <-time.After(wait):
+		}
+		if wait < 20*time.Millisecond {
+			wait *= 2
+		}
+		el := time.Since(start)
+		if el > 30*time.Millisecond && len(t.vt.events) == cap(t.vt.events) {
+			// candidate stall: release the sender and see whether that was
+			// what update waited for.  If update was blocked in postEvent its
+			// send now goes through and the channel is full again; if it was
+			// merely slow (the channel was full because its own post had
+			// succeeded) the channel stays one short and the event is put back.
+			ev := <-t.vt.events
+			select {
+			case r := <-done:
+				if len(t.vt.events) == cap(t.vt.events) {
+					return VerifStall, "postEvent blocked on a full events channel"
+				}
+				t.vt.events <- ev
+				return r.outcome, r.msg
+			case <-time.After(5 * time.Second):
+				return VerifHang, "update did not return after an event was drained"
+			}
+		}
+		if el > 10*time.Second {
+			return VerifHang, "update did not return"
+		}
+	}
+}
+
+// Resize calls the exported Resize (what Draw calls when the host window
+// changed size); the ioctl on the pipe fails and is ignored by Resize.
+func (t *VerifTerm) Resize(cols, rows int) (outcome int, msg string) {
+	return t.guard(func() { t.vt.Resize(cols, rows) })
+}
+
+// Replies returns and clears what the emulator wrote to its PTY.
+func (t *VerifTerm) Replies() []byte {
+	var out []byte
+	buf := make([]byte, 4096)
+	for {
+		n, err := syscall.Read(t.replyR, buf)
+		if n > 0 {
+			out = append(out, buf[:n]...)
+		}
+		if err != nil || n <= 0 {
+			return out
+		}
+	}
+}
+
+// VerifCell is a read-only copy of one emulator cell.
+type VerifCell struct {
+	Grapheme string
+	Width    int
+	Style    vaxis.Style
+	Wrapped  bool
+}
+
+// VerifSaved is a read-only copy of a saved cursor (DECSC).
+type VerifSaved struct {
+	Row, Col     int
+	Pen          vaxis.Style
+	Shape        int
+	Decawm       bool
+	Decom        bool
+	Selected     int
+	SavedCharset int
+	Designations [4]int
+}
+
+// VerifSnapshot is a read-only copy of the emulator state.
+type VerifSnapshot struct {
+	Rows, Cols               int // len(activeScreen), width()
+	CursorRow, CursorCol     int
+	LastCol                  bool
+	Top, Bottom, Left, Right int
+	Pen                      vaxis.Style
+	Shape                    int
+	ActiveIsAlt              bool
+	Smcup                    bool
+	Irm, Lnm, Decawm, Decom  bool
+	Dectcem                  bool
+	TabStops                 []int
+	Selected, SavedCharset   int
+	SingleShift              bool
+	Designations             [4]int
+	SavedPrimary, SavedAlt   VerifSaved
+	Events                   int
+	Primary, Alt             [][]VerifCell
+}
+
+func verifSaved(s cursorState) VerifSaved {
+	out := VerifSaved{
+		Row: int(s.cursor.row), Col: int(s.cursor.col), Pen: s.cursor.Style, Shape: int(s.cursor.style),
+		Decawm: s.decawm, Decom: s.decom,
+		Selected: int(s.charsets.selected), SavedCharset: int(s.charsets.saved),
+	}
+	for i := 0; i < 4; i++ {
+		out.Designations[i] = int(s.charsets.designations[charsetDesignator(i)])
+	}
+	return out
+}
+
+func verifGrid(g [][]cell) [][]VerifCell {
+	out := make([][]VerifCell, len(g))
+	for r := range g {
+		out[r] = make([]VerifCell, len(g[r]))
+		for c := range g[r] {
+			x := g[r][c]
+			out[r][c] = VerifCell{Grapheme: x.Grapheme, Width: x.Width, Style: x.Style, Wrapped: x.wrapped}
+		}
+	}
+	return out
+}
+
+// Snapshot copies the state; grids are copied only if withGrids is set.
+func (t *VerifTerm) Snapshot(withGrids bool) VerifSnapshot {
+	vt := t.vt
+	s := VerifSnapshot{
+		Rows: vt.height(), Cols: vt.width(),
+		CursorRow: int(vt.cursor.row), CursorCol: int(vt.cursor.col),
+		LastCol: vt.lastCol,
+		Top:     int(vt.margin.top), Bottom: int(vt.margin.bottom), Left: int(vt.margin.left), Right: int(vt.margin.right),
+		Pen: vt.cursor.Style, Shape: int(vt.cursor.style),
+		Smcup: vt.mode.smcup, Irm: vt.mode.irm, Lnm: vt.mode.lnm, Decawm: vt.mode.decawm, Decom: vt.mode.decom,
+		Dectcem:  vt.mode.dectcem,
+		Selected: int(vt.charsets.selected), SavedCharset: int(vt.charsets.saved), SingleShift: vt.charsets.singleShift,
+		SavedPrimary: verifSaved(vt.primaryState), SavedAlt: verifSaved(vt.altState),
+		Events: len(vt.events),
+	}
+	for i := 0; i < 4; i++ {
+		s.Designations[i] = int(vt.charsets.designations[charsetDesignator(i)])
+	}
+	for _, ts := range vt.tabStop {
+		s.TabStops = append(s.TabStops, int(ts))
+	}
+	if len(vt.activeScreen) > 0 && len(vt.altScreen) > 0 {
+		s.ActiveIsAlt = &vt.activeScreen[0] == &vt.altScreen[0]
+	}
+	if withGrids {
+		s.Primary = verifGrid(vt.primaryScreen)
+		s.Alt = verifGrid(vt.altScreen)
+	}
+	return s
+}
+
+// RowLens returns len of every row of the primary and the alternate grid.
+func (t *VerifTerm) RowLens() (primary, alt []int) {
+	for _, r := range t.vt.primaryScreen {
+		primary = append(primary, len(r))
+	}
+	for _, r := range t.vt.altScreen {
+		alt = append(alt, len(r))
+	}
+	return
+}
+
+// Model exposes the emulator for Draw-based checks (Draw is exported already).
+func (t *VerifTerm) Model() *Model { return t.vt }
